@@ -1,9 +1,11 @@
 package lhsim
 
 import (
+	"fmt"
+	"os"
 	"runtime"
 	"strings"
-	"sync/atomic"
+	"sync"
 )
 
 // Scheduling points inserted into the library by tools/yieldinst (before every mutex acquisition, channel operation
@@ -14,6 +16,8 @@ import (
 // inside a consumer call abstains here too, and the gate-release action / shutdown drain releases it.
 //
 // Nothing is parked while any library mutex is held (Held counter): sync.Mutex does not block durably in a bubble.
+
+var debugYield = os.Getenv("SIM_DEBUG_YIELD") != ""
 
 type goInfo struct {
 	node *Node
@@ -29,12 +33,14 @@ type yieldArm struct {
 
 type yieldState struct {
 	arm        *yieldArm
-	held       atomic.Int64
+	mu         sync.Mutex
+	heldBy     map[uint64]int
 	harnessGid uint64
 	roles      map[uint64]goInfo
 	loose      []*Gate // parked goroutines that belong to no node (component scenarios)
 	enabled    bool
-	noPark     int // >0: inside a harness wrapper whose bookkeeping must stay atomic with the library call it wraps
+	starting   *Node // the node whose loops are being started (to recognise its main-loop goroutine)
+	quietBy    map[uint64]int // per goroutine: inside a harness section (wrapper / fake / oracle code) in which nothing may park
 }
 
 func goid() uint64 {
@@ -53,6 +59,8 @@ func (w *World) enableYields() {
 	w.ys.harnessGid = goid()
 	if w.ys.roles == nil {
 		w.ys.roles = map[uint64]goInfo{}
+		w.ys.heldBy = map[uint64]int{}
+		w.ys.quietBy = map[uint64]int{}
 	}
 }
 
@@ -66,19 +74,80 @@ func (w *World) noteGoroutine(n *Node, role string) {
 	if id == w.ys.harnessGid {
 		return
 	}
+	w.ys.mu.Lock()
 	if _, ok := w.ys.roles[id]; !ok {
 		w.ys.roles[id] = goInfo{n, role}
 	}
+	w.ys.mu.Unlock()
 }
 
-func (w *World) atHeld(delta int) { w.ys.held.Add(int64(delta)) }
-
-func (w *World) atYield(point string) {
-	a := w.ys.arm
-	if a == nil {
+// atHeld keeps, per goroutine, the number of library mutexes it holds (only in runs that use preemption: the
+// goroutine id costs about a microsecond). A global count would depend on what *other* goroutines happen to hold
+// at that instant, i.e. on the Go scheduler.
+// The count is kept only while a preemption is armed (a goroutine id costs 2-3 microseconds): arming happens at
+// quiescent points, where no goroutine of this library holds a mutex (it never blocks durably under one), so counting
+// starts from zero; a release of a mutex taken before arming is ignored.
+func (w *World) atHeld(delta int) {
+	if !w.ys.enabled || w.ys.arm == nil {
 		return
 	}
-	if w.ys.held.Load() != 0 || w.ys.noPark > 0 {
+	id := goid()
+	w.ys.mu.Lock()
+	if c := w.ys.heldBy[id] + delta; c > 0 {
+		w.ys.heldBy[id] = c
+	} else {
+		delete(w.ys.heldBy, id)
+	}
+	w.ys.mu.Unlock()
+}
+
+// quiet marks the calling goroutine as being inside harness code that calls into the library (a wrapper whose
+// bookkeeping must stay atomic with the call it wraps, a fake or an oracle reading State()): no preemption there.
+// It costs a goroutine id only while a preemption is armed (arming happens at quiescent points, when no library
+// goroutine is inside such a section). Usage: defer w.quiet()().
+func (w *World) quiet() func() {
+	if !w.ys.enabled || w.ys.arm == nil {
+		return func() {}
+	}
+	id := goid()
+	w.ys.mu.Lock()
+	w.ys.quietBy[id]++
+	w.ys.mu.Unlock()
+	return func() {
+		w.ys.mu.Lock()
+		w.ys.quietBy[id]--
+		w.ys.mu.Unlock()
+	}
+}
+
+func (w *World) holdsMutex(id uint64) bool {
+	w.ys.mu.Lock()
+	defer w.ys.mu.Unlock()
+	return w.ys.heldBy[id] != 0 || w.ys.quietBy[id] != 0
+}
+
+func (w *World) atYield(point string) {
+	if st := w.ys.starting; st != nil && w.ys.enabled && strings.Contains(point, "mainloop.go:MainLoop.run:") {
+		// the node being started right now: the goroutine that reaches the main loop's select is its main loop
+		if id := goid(); id != w.ys.harnessGid {
+			w.ys.mu.Lock()
+			if _, ok := w.ys.roles[id]; !ok {
+				w.ys.roles[id] = goInfo{st, "main"}
+			}
+			w.ys.mu.Unlock()
+		}
+	}
+	if debugYield && w.ys.enabled {
+		id := goid()
+		w.ys.mu.Lock()
+		info := w.ys.roles[id]
+		w.ys.mu.Unlock()
+		if info.node != nil {
+			fmt.Fprintf(os.Stderr, "   .. yield n%d %s %s\n", info.node.idx, info.role, point)
+		}
+	}
+	a := w.ys.arm
+	if a == nil {
 		return
 	}
 	if a.match != "" && !strings.Contains(point, a.match) {
@@ -94,23 +163,33 @@ func (w *World) atYield(point string) {
 	if id == w.ys.harnessGid {
 		return
 	}
-	info, known := w.ys.roles[id]
-	if a.node != nil && (!known || info.node != a.node) {
+	if w.holdsMutex(id) {
 		return
 	}
-	if a.role != "" && (!known || info.role != a.role) {
+	w.ys.mu.Lock()
+	info, known := w.ys.roles[id]
+	if w.ys.arm != a || (a.node != nil && (!known || info.node != a.node)) || (a.role != "" && (!known || info.role != a.role)) {
+		w.ys.mu.Unlock()
 		return
 	}
 	a.count--
 	if a.count > 0 {
+		w.ys.mu.Unlock()
 		return
 	}
 	w.ys.arm = nil
-	g := &Gate{node: info.node, kind: "yield", release: make(chan GateVerdict, 1), started: w.seq, ignoresCtx: true}
+	w.ys.mu.Unlock()
+	g := &Gate{node: info.node, kind: "yield", release: make(chan GateVerdict, 1), started: w.seq, ignoresCtx: true, role: info.role}
 	if n := info.node; n != nil {
 		g.height = n.height()
 		g.ctx = n.ctx
 		n.gates = append(n.gates, g)
+		if info.role == "main" {
+			// the main loop is busy (slow to come back to its select): callers of the API block meanwhile; the harness
+			// hands it nothing but UpdateState calls until it is released (see forceReleaseMain)
+			n.mainParked = g
+			w.probe("main-loop-parked")
+		}
 		w.ev("yield-park n%d %s at %s", n.idx, info.role, point)
 	} else {
 		w.ys.loose = append(w.ys.loose, g)
@@ -121,6 +200,9 @@ func (w *World) atYield(point string) {
 	<-g.release
 	if n := info.node; n != nil {
 		n.removeGate(g)
+		if n.mainParked == g {
+			n.mainParked = nil
+		}
 		w.ev("yield-resume n%d %s", n.idx, info.role)
 	} else {
 		for i, x := range w.ys.loose {
@@ -142,6 +224,9 @@ func pointKind(point string) string {
 
 // armYield: the count-th next scheduling point reached by a goroutine of the given role of node n parks.
 func (w *World) armYield(n *Node, role string, count int, match string) {
+	w.ys.mu.Lock()
+	w.ys.heldBy = map[uint64]int{}
+	w.ys.mu.Unlock()
 	w.ys.arm = &yieldArm{node: n, role: role, count: count, match: match}
 	if n != nil {
 		w.ev("arm yield n%d %s in %d points %q", n.idx, role, count, match)
@@ -160,4 +245,47 @@ func (w *World) releaseLooseYields() bool {
 		}
 	}
 	return moved
+}
+
+// forceReleaseMain: before the harness hands a parked main loop anything but an UpdateState call (a message, an
+// election trigger, cancellation, a clock advance past the node's real timer) the main loop is released and comes to
+// rest: with several of its channels ready at once its select would choose at random.
+func (w *World) forceReleaseMain(n *Node) bool {
+	g := n.mainParked
+	if g == nil {
+		return false
+	}
+	w.ev("main loop of n%d released (another stimulus is due)", n.idx)
+	select {
+	case g.release <- GatePass:
+	default:
+	}
+	w.quiesce()
+	w.pollPendingSyncs(n)
+	return true
+}
+
+type pendingSync struct {
+	done   chan error
+	idx    int // index into n.updates
+	th     uint64
+	before hv
+	epoch  int
+}
+
+// pollPendingSyncs: UpdateState calls that were blocked on a busy main loop and have returned since.
+func (w *World) pollPendingSyncs(n *Node) {
+	for len(n.pendingSyncs) > 0 {
+		p := n.pendingSyncs[0]
+		select {
+		case e := <-p.done:
+			n.pendingSyncs = n.pendingSyncs[1:]
+			if p.epoch == n.epoch && p.idx < len(n.updates) {
+				n.updates[p.idx].returned, n.updates[p.idx].err = true, e
+				w.probe("blocked-updatestate-returned")
+			}
+		default:
+			return
+		}
+	}
 }
